@@ -5,6 +5,8 @@
 package backtest
 
 import (
+	"sync"
+
 	"github.com/cinar/indicator/v2/asset"
 	"github.com/cinar/indicator/v2/helper"
 	"github.com/cinar/indicator/v2/strategy"
@@ -32,6 +34,9 @@ type DataStrategyResult struct {
 type DataReport struct {
 	// Results are the backtest results for the assets.
 	Results map[string][]*DataStrategyResult
+
+	// mu guards Results, which the backtest workers update concurrently.
+	mu sync.Mutex
 }
 
 // NewDataReport initializes a new data report instance.
@@ -48,7 +53,11 @@ func (*DataReport) Begin(_ []string, _ []strategy.Strategy) error {
 
 // AssetBegin is called when backtesting for the given asset begins.
 func (d *DataReport) AssetBegin(name string, strategies []strategy.Strategy) error {
+	d.mu.Lock()
+	defer d.mu.Unlock()
+
 	d.Results[name] = make([]*DataStrategyResult, 0, len(strategies))
+
 	return nil
 }
 
@@ -69,6 +78,9 @@ func (d *DataReport) Write(assetName string, currentStrategy strategy.Strategy, 
 		Action:       <-lastAction,
 		Transactions: transactions,
 	}
+
+	d.mu.Lock()
+	defer d.mu.Unlock()
 
 	d.Results[assetName] = append(d.Results[assetName], result)
 
